@@ -193,12 +193,15 @@ CASES = [
     # (b1617, round 9) a newtype read as its component: `&mut self` writes `self.0`, `Type::f()` of a tuple struct
     ("tsmut", "pub struct M(Vec<u32>);\nimpl M { pub fn add(&mut self, x: u32) { self.0.push(x); } }", ("expect", ["(self : List Nat)", "(self ++ [x])"]), ("M", "add")),
     ("tsassoc", "pub struct M(Vec<u32>);\nimpl M { pub fn new() -> Self { M(vec![]) } }\nfn f() -> M { M::new() }", ("expect", ["(M.new)"])),
+    ("smapclear", "pub struct T { pub m: BTreeMap<String, u32> }\nimpl T { pub fn wipe(&mut self) { self.m.clear(); } }", ("expect", ["{ self with m := [] }"]), ("T", "wipe")),
     ("r-orbind", "fn f(e: E) -> u32 { match e { E::A(n) | E::A(n) => n, _ => 0 } }", ("refuse", "or-pattern that binds")),
     # (b1012, round 9) `x.into()` between two structs of the unit = the one `impl From<_> for T`; no such impl / no wanted type: refused
     ("intofrom", "pub struct T { pub a: u64 }\nimpl From<S> for T { fn from(s: S) -> Self { T { a: s.a } } }\nfn f(s: S) -> T { s.into() }",
      ("expect", ["T.«from» s", "a := s.a"])),
     ("itermut", "impl S { fn f(&mut self) { for b in self.v.iter_mut() { *b = 0; } } }", ("expect", ["v := (self.v.map (fun b => 0))"]), ("S", "f")),
     ("r-itermut", "impl S { fn f(&mut self) { for b in self.v.iter_mut() { *b = 0; self.a = 1; } } }", ("refuse", "iter_mut"), ("S", "f")),
+    ("unwrapres", "fn g(a: u64) -> Result<u64, ()> { if a > 3 { return Err(()); } Ok(a) }\nfn f(a: u64) -> Result<u64, ()> { let x = g(a).unwrap(); Ok(x + 1) }",
+     ("expect", ["Rs.unwrapOk (g a)"])),
     ("r-into-noimpl", "pub struct T { pub a: u64 }\nfn f(s: S) -> T { s.into() }", ("refuse", "without a known widening target")),
     ("r-into-wrongarg", "pub struct T { pub a: u64 }\npub struct W { pub a: u64 }\nimpl From<W> for T { fn from(s: W) -> Self { T { a: s.a } } }\nfn f(s: S) -> T { s.into() }",
      ("refuse", "without a known widening target")),
@@ -236,6 +239,76 @@ def run(verbose=False):
                 bad.append("%s: refused: %s" % (name, e))
         except Exception as e:        # a crash is a failure of the self-test, never a silent pass
             bad.append("%s: translator crashed: %r" % (name, e))
+    bad += run_arms(verbose)
+    return bad
+
+
+ARM_SRC = """
+pub struct H { pub ver: u32 }
+impl Handler for H {
+    fn do_handle(&self, msg: Message) -> Result<u32, ()> {
+        match msg {
+            Message::Ping(p) => {
+                let x = p.id + 1;
+                Ok(x)
+            }
+            Message::Pong(p) => Ok(p.id),
+            Message::Rev(m) => {
+                if self.ver < 5 {
+                    return Err(());
+                }
+                Ok(m.n)
+            }
+            _ => Err(()),
+        }
+    }
+}
+pub struct Ping { pub id: u32 }
+pub struct Rev { pub n: u32 }
+"""
+
+
+def run_arms(verbose=False):
+    """arms of a dispatching `match` as methods (translate/fn_arms.py): shape of the rewrite and what stays refused"""
+    import fn_arms
+    bad = []
+
+    def unit(src, plan):
+        return Unit("/nonexistent", "<test:arms>", "VlsModel.Test", src=src, rewrite=fn_arms.make_arm_splitter("<test:arms>", plan))
+    arm = lambda fn, param: {"fn": fn, "param": param, "ret": "Result<u32, ()>"}
+    plan = {"H::do_handle": {"scrutinee": "msg", "enum": "Message", "arms": {"Ping": arm("h_ping", "Ping"), "Rev": arm("h_rev", "Rev")}}}
+    try:
+        u = unit(ARM_SRC, plan)
+        u.get_fn("H", "h_ping"); u.get_fn("H", "h_rev")
+        t = norm(u.emit())
+        for frag in ["def H.h_ping", "Rs.uadd Rs.U32_MAX p.id 1", "def H.h_rev", "if (decide (self.ver < 5)) then"]:
+            if norm(frag) not in t:
+                bad.append("arms: fragment %r not in the output" % frag)
+                if verbose: print(u.emit())
+        if ARM_SRC.count("\n") != u.fi.src.count("\n"):
+            bad.append("arms: the rewrite changed the line count")
+    except Exception as e:
+        bad.append("arms: refused or crashed: %r" % (e,))
+    refusals = [
+        ("r-arm-expr", plan_for := {"H::do_handle": {"scrutinee": "msg", "enum": "Message", "arms": {"Pong": arm("h_pong", "Ping")}}}, ARM_SRC, "no block body"),
+        ("r-arm-missing", {"H::do_handle": {"scrutinee": "msg", "enum": "Message", "arms": {"Nope": arm("h_nope", "Ping")}}}, ARM_SRC, "no arm for"),
+        ("r-arm-after-catch-all", {"H::do_handle": {"scrutinee": "msg", "enum": "Message", "arms": {"Rev": arm("h_rev", "Rev")}}},
+         ARM_SRC.replace("            Message::Pong(p) => Ok(p.id),", "            _ => Err(()),"), "after a catch-all"),
+        ("r-arm-twice", {"H::do_handle": {"scrutinee": "msg", "enum": "Message", "arms": {"Ping": arm("h_ping", "Ping")}}},
+         ARM_SRC.replace("Message::Pong(p) => Ok(p.id),", "Message::Ping(p) => Ok(p.id),"), "has two arms"),
+        ("r-arm-not-a-match", {"H::do_handle": {"scrutinee": "other", "enum": "Message", "arms": {"Ping": arm("h_ping", "Ping")}}}, ARM_SRC, "not a single `match"),
+    ]
+    for name, pl, src, why in refusals:
+        try:
+            u = unit(src, pl)
+            fn = list(pl["H::do_handle"]["arms"].values())[0]["fn"]
+            u.get_fn("H", fn)
+            bad.append("%s: translated but must be refused (%s)" % (name, why))
+        except RsError as e:
+            if why not in str(e) and why not in str(u.rewrite_failed if 'u' in dir() else ""):
+                bad.append("%s: refused for another reason: %s" % (name, e))
+        except Exception as e:
+            bad.append("%s: crashed: %r" % (name, e))
     return bad
 
 
